@@ -898,7 +898,7 @@ def run(ctx):
                 "every case; the model's C3 linearisation is compared with every class's real __mro__; readings "
                 "of every class (ABSENT where the setting does not exist) and instance after every op.  "
                 "Non-trivial: >= 2 classes, >= 3 ops, a class-level set and some unset; distinct by full case hash.",
-        "samples": [describe(c) for c in cases[:2] + cases[len(CORPUS):len(CORPUS) + 1] + cases[ncorpus:ncorpus + 3]
+        "samples": [describe(c) for c in cases[:1] + cases[len(CORPUS):len(CORPUS) + 1] + cases[ncorpus:ncorpus + 2]
                     + ([] if ctx.replay else cases[-2:])],
         "histogram": hist,
         "mismatches": mismatches,
